@@ -25,7 +25,7 @@ def con_s(con):
 ONE_DIM = ["gss", "brent", "brentin", "newton1", "nback"]
 MULTI = ["simple", "snewton", "powell", "simplex", "cg", "bfgs", "meta"]
 # kinds whose model is run by the driver (bit-exact tie); the others are explored through the predicates only
-MODELLED = set(["gss", "brent", "brentin", "nback", "newton1", "simple", "snewton", "simplex"])
+MODELLED = set(["gss", "brent", "brentin", "nback", "newton1", "simple", "snewton", "simplex", "powell", "cg", "bfgs", "meta"])
 
 
 def rand_orth(r, n):
@@ -162,8 +162,12 @@ def gen_case(rng, idx, tier):
     cons, inside = {}, True
     start = {}
     for k in sel:
-        v = x0[k] if (r.random() < 0.9 or kind in ("nback", "meta")) else x0[k] + r.uniform(-1, 1)
+        v = x0[k] if (r.random() < 0.9 or kind == "nback") else x0[k] + r.uniform(-1, 1)
         start[k] = v
+        if kind == "meta":
+            if v != x0[k]:
+                continue        # (no constraint then: it would have to contain both values)
+            v = x0[k]           # the meta-optimiser starts from the function's own point, whatever the list says
         if r.random() < (0.6 if pol != "k" else 0.25):
             m = xs[k] if xs is not None else v
             w = r.random()
@@ -217,6 +221,8 @@ def gen_case(rng, idx, tier):
         extra = "%s %s" % (hx(sl), hx(r.choice([1.0, 1.0, r.uniform(0.01, 10)])))
     elif kind == "meta":
         extra = r.choice(["full", "step"])
+        if r.random() < 0.6:
+            extra += " %d" % r.choice([1, 3, 4, 6])
     kname = "brent" if kind == "brentin" else kind
     tol_s = hx(tol) if r.random() < 0.95 else "-"
     lines.append("opt %s %s %s %d %s" % (kname, pol, tol_s, mx, extra))
@@ -226,15 +232,38 @@ def gen_case(rng, idx, tier):
     else:
         lines.append("hint %s 0 0 %d" % (hx(0.0), int(full)))
     lines.append("init %d %s" % (len(sel), " ".join("%d %s %s" % (k, hx(start[k]), con_s(cons.get(k))) for k in sel)))
+    if r.random() < 0.05:
+        lines.append("clone")
     u = r.random()
     if u < 0.7:
         lines.append("optimize")
     elif u < 0.85:
         for _ in range(r.randint(1, 4)):
             lines.append("step")
+            if r.random() < 0.1:
+                lines.append("clone")
         lines.append("optimize")
     else:
         lines.append("optimize")
+        lines.append("optimize")
+    # the same optimiser used again: another budget, init from another start (state left by the first run)
+    if r.random() < 0.12:
+        if r.random() < 0.6:
+            lines.append("setmax %d" % r.choice([0, 1, 1, 2, 3, 5, 50, 2000]))
+        start2 = {}
+        for k in sel:
+            v = start[k]
+            if kind != "nback":
+                w = v + r.uniform(-1, 1)
+                c = cons.get(k)
+                if c is not None:
+                    lo, hi = c[0], c[1]
+                    if (lo is None or lo + 1e-6 < w) and (hi is None or w < hi - 1e-6):
+                        v = w
+                else:
+                    v = w
+            start2[k] = v
+        lines.append("init %d %s" % (len(sel), " ".join("%d %s %s" % (k, hx(start2[k]), con_s(cons.get(k))) for k in sel)))
         lines.append("optimize")
     return lines
 
